@@ -164,7 +164,7 @@ def scheduling(n: int, w: int, k1: int, b0: bool, b1: bool) -> bool:
     in-order run is transitive, so any two orders agree), with a symbolic subset of unparsable files: the
     aggregated changesets, failed files and unfixed findings (content AND order) and every file's bytes are
     identical; the executor is created with at most --max-workers workers.
-    pre: 1 <= n <= 3 and (w == 1 or w == 3)
+    pre: 1 <= n <= 3 and 1 <= w <= 3
     post: _
     """
     k2 = 0
@@ -405,7 +405,7 @@ SPEC = {
         "BaseParser.find_file_locations / parse",
     ],
     "bounds": {
-        "quick": "<= 3 files / entry points / manifests; every pair of the 6 permutations; worker counts 1 and 3; task-atomic schedules (a task runs to completion; per-file work only touches its own FileContext and file)",
+        "quick": "<= 3 files / entry points / manifests; every pair of the 6 permutations; worker counts 1, 2 and 3; task-atomic schedules (a task runs to completion; per-file work only touches its own FileContext and file)",
         "thorough": "same",
     },
     "assumptions": [
